@@ -331,7 +331,9 @@ def world_for(prop, tier, seed, idx):
         elif r.random() < 0.4:
             pre.append(_fill_values(_flow_spec(r, flows=("maf", "coupling"), transformers=("affine", "loc", "scale")), r))
         w["prelude"] = pre
-    if prop in ("C11", "C09"):
+    if prop == "C09":
+        w["faults"] = _faults(r, hint, box, ["opt_teleport", "opt_teleport", "opt_teleport", "opt_teleport_positive", "opt_teleport_positive", "grad_huge", "opt_signflip"], p_none=0.15)
+    if prop == "C11":
         w["faults"] = _faults(r, hint, box, ["opt_teleport", "opt_teleport", "opt_teleport", "opt_teleport", "grad_huge", "opt_signflip"], p_none=0.2)
     if prop == "C18":
         w["faults"] = []
